@@ -205,6 +205,28 @@ func (c *VCtx) zeroInit(st *State, r *Term, t types.Type) {
 	if n, ok := t.(*types.Named); ok && n.Obj().Pkg() != nil && n.Obj().Pkg().Path() == "sync/atomic" {
 		isAtomic = true
 	}
+	if sp := c.objectSpec(t); sp != nil {
+		// ghost fields of a fresh object start at their zero value (empty set, nil, 0)
+		for _, gf := range sp.Ghost {
+			name, sort := c.ghostFieldHeapFor(sp, gf)
+			_, vs := arrParts(sort)
+			var z *Term
+			switch {
+			case vs == SInt:
+				z = IntLit(0)
+			case vs == SBool:
+				z = False
+			case vs == SRef:
+				z = Null
+			case vs == ArrSort(SRef, SBool):
+				z = T(vs, "emptyset")
+			default:
+				continue
+			}
+			h := c.heap(st, name, sort)
+			c.setHeap(st, name, Store(h, r, z))
+		}
+	}
 	for i := 0; i < stt.NumFields(); i++ {
 		f := stt.Field(i)
 		ft := f.Type()
